@@ -106,8 +106,8 @@ func repoFrame(stack string) string {
 		if strings.HasPrefix(fn, "proto.") && strings.Contains(fn, "ProtoReflect") {
 			continue
 		}
-		if fn == "" {
-			fn = "gtfs"
+		if fn == "" || strings.HasPrefix(fn, ".") {
+			fn = "gtfs" + fn
 		}
 		// strip closure suffixes (.func1, .func1.2) so refactors of closures keep the signature
 		for {
